@@ -46,7 +46,7 @@ def lemma_instances(I, c, env, lemmas):
 ALLOWED_DECORATORS = {"staticmethod", "classmethod", "property", "overload", "abstractmethod", "abc.abstractmethod", "typing.overload"}
 
 
-def signature_obligations(src, c):
+def signature_obligations(src, c, db=None):
     """The contract speaks about the function BODY.  Two things outside the body can change what callers get:
     a decorator (the body-level contract does not describe the decorated function) and a mutable default argument
     (state shared between calls).  Both are excluded by obligation, on the real AST of this run."""
@@ -76,6 +76,16 @@ def signature_obligations(src, c):
     mut = [_ast.unparse(d) for d in defaults if not immutable(d)]
     out.append(Obligation(f"G:{short}:immutable-defaults", [], z3.BoolVal(not mut), q, "G",
                           f"default argument values are immutable (mutable defaults {mut or 'none'} would be state shared by every call)"))
+    try:
+        from .audit_det import module_state_findings
+        contracted = {(getattr(k, "real_name", None) or k.name.split("#")[0]) for k in (db.by_name.values() if db is not None else [])}
+        found = module_state_findings(src, q, contracted - {q})
+    except Exception as ex:      # the audit must not hide the other obligations
+        found = [(q, 0, f"audit failed: {type(ex).__name__}: {ex}")]
+    out.append(Obligation(f"G:{short}:no-module-state", [], z3.BoolVal(not found), q, "G",
+                          "the function (with the uncontracted module-level helpers it calls) neither writes nor reads module-level mutable state, no cache or registry: "
+                          + ("none found" if not found else "; ".join(f"{a.replace('htmltools.', '')} line {l}: {w}" for a, l, w in found[:3]))
+                          + " - the contract gives the result as a function of the arguments, earlier calls must not matter"))
     return out
 
 
@@ -138,8 +148,17 @@ def _verify_contract(w, src, db, c, lemma_fn=None, timeout_ms=10000, relevance=N
     except (Unsupported, SpecError, ExtractError) as ex:
         v = Verdict(f"R:{short}:subset", "unknown", "-", time.time() - t0, where=c.name,
                     note=f"function left the verified subset: {type(ex).__name__}: {ex}")
-        return [v], dict(I.stats, seconds=time.time() - t0, obligations=0)
-    obs = list(obs) + signature_obligations(src, c)
+        # the obligations about the function's signature and module state are syntactic: they are decided even when the body
+        # cannot be interpreted
+        sig = []
+        try:
+            sig = [discharge(ob, [], [], timeout_ms) for ob in signature_obligations(src, c, db)]
+            for sv in sig:
+                sv.contract = c.name
+        except Exception:
+            sig = []
+        return [v] + sig, dict(I.stats, seconds=time.time() - t0, obligations=len(sig))
+    obs = list(obs) + signature_obligations(src, c, db)
     seen = set()
     for ob in obs:
         key = (ob.name, ob.goal.sexpr() if hasattr(ob.goal, "sexpr") else str(ob.goal), tuple(h.sexpr() for h in ob.hyps))
